@@ -13,23 +13,29 @@ Inductive xpop :=
      [unix0; zone offset; calcExpireSeconds before; unix1; calcExpireSeconds after] *)
 | XPTake (lim key : nat) (down : bool) (w : Z) (code err : Z) (ent : ent3) (exp : list Z)
   (* g goroutines, one Take each; observed: how many answered code 0..3, how many errors *)
-| XPConc (lim key : nat) (g : nat) (w : Z) (counts : list Z) (errs : Z) (ent : ent3).
+| XPConc (lim key : nat) (g : nat) (w : Z) (counts : list Z) (errs : Z) (ent : ent3)
+  (* the server is replaced by a fresh miniredis on the same address *)
+| XPReplace.
 
-Record snap := mkSnap { s_alive : bool; s_mon : bool; s_tok : ent3; s_ts : ent3 }.
+(* redisAlive / monitorStarted of the two limiter instances, and the two bucket keys on the
+   server that is currently listening *)
+Record snap := mkSnap { s_alive0 : bool; s_mon0 : bool; s_alive1 : bool; s_mon1 : bool; s_tok : ent3; s_ts : ent3 }.
 
+(* inst: which of the two TokenLimiter instances (same key, rate, burst; own store wrapper) is called *)
 Inductive xtop :=
 | XTTick (ms : Z) (sn : snap)
-| XTAllow (n : Z) (cx : nat) (skew : Z) (ok : bool) (sn : snap)   (* cx: 0 live, 1 cancelled, 2 deadline *)
-| XTConc (g : nat) (n : Z) (granted : Z) (sn : snap)
-| XTFault (eup pup hard : bool) (sn : snap).
+| XTAllow (inst : nat) (n : Z) (cx : nat) (skew : Z) (ok : bool) (sn : snap)   (* cx: 0 live, 1 cancelled, 2 deadline *)
+| XTConc (inst : nat) (g : nat) (n : Z) (granted : Z) (sn : snap)
+| XTFault (eup pup hard : bool) (sn : snap)
+| XTReplace (eup pup : bool) (sn : snap).      (* fresh server instance answering EVAL / PING as given *)
 
 Inductive case :=
-| CPeriod (lims : list (Z * Z * bool)) (t0 : Z) (ops : list xpop)        (* (period, quota, align) *)
+| CPeriod (lims : list (Z * Z * bool * nat)) (t0 : Z) (ops : list xpop)  (* (period, quota, align, key prefix id) *)
 | CToken (rate burst t0 : Z) (panicked : bool) (ops : list xtop).
 
 (* ------------------------------------------------------------------ shared helpers *)
-Definition kid (lim key : nat) : nat := (lim * 1000 + key)%nat.
-Definition lim_of (lims : list (Z * Z * bool)) (i : nat) : Z * Z * bool := nth i lims (0, 0, false).
+Definition kid (pfx key : nat) : nat := (pfx * 1000 + key)%nat.
+Definition lim_of (lims : list (Z * Z * bool * nat)) (i : nat) : Z * Z * bool * nat := nth i lims (0, 0, false, O).
 
 Definition ent_eqb (t : Z) (o : option entry) (e : ent3) : bool :=
   let '(p, v, ttl) := e in
@@ -73,21 +79,22 @@ Definition window_ok (align : bool) (period w : Z) (exp : list Z) : bool :=
   | _ => false
   end.
 
-Fixpoint pmodel (lims : list (Z * Z * bool)) (st : pstate) (ops : list xpop) : bool :=
+Fixpoint pmodel (lims : list (Z * Z * bool * nat)) (st : pstate) (ops : list xpop) : bool :=
   match ops with
   | [] => true
   | XPTick ms :: r => pmodel lims (fst (pstep st (PTick ms))) r
+  | XPReplace :: r => pmodel lims (fst (pstep st PReplace)) r
   | XPTake lim key down w code err ent exp :: r =>
-      let '(period, quota, align) := lim_of lims lim in
-      let k := kid lim key in
+      let '(period, quota, align, pfx) := lim_of lims lim in
+      let k := kid pfx key in
       let (st', out) := pstep st (PTake k quota w (negb down)) in
       window_ok align period w exp &&
       match out with Some (_, res) => res_eqb res code err | None => false end &&
       ent_eqb (fst st') (rget (fst st') k (snd st')) ent &&
       pmodel lims st' r
   | XPConc lim key g w counts errs ent :: r =>
-      let '(period, quota, align) := lim_of lims lim in
-      let k := kid lim key in
+      let '(period, quota, align, pfx) := lim_of lims lim in
+      let k := kid pfx key in
       let takes := repeat (PTake k quota w true) g in
       let outs := map snd (prun st takes) in
       let st' := pfinal st takes in
@@ -106,24 +113,26 @@ Fixpoint wtakes (n : nat) (t : Z) (k : nat) (q w : Z) (ws : windows) : windows *
   | S n' => let (ws1, c) := wtake t k q w ws in let (ws2, cs) := wtakes n' t k q w ws1 in (ws2, c :: cs)
   end.
 
-Fixpoint pspec (lims : list (Z * Z * bool)) (t : Z) (ws : windows) (ops : list xpop) : bool :=
+Fixpoint pspec (lims : list (Z * Z * bool * nat)) (t : Z) (ws : windows) (ops : list xpop) : bool :=
   match ops with
   | [] => true
   | XPTick ms :: r => if ms <? 0 then true else pspec lims (t + ms) ws r
+  (* a fresh server has lost every window; the limiter must simply keep working on it *)
+  | XPReplace :: r => pspec lims t [] r
   | XPTake lim key down w code err ent exp :: r =>
-      let '(period, quota, align) := lim_of lims lim in
+      let '(period, quota, align, pfx) := lim_of lims lim in
       if period <? 1 then true
       else if down then negb (code =? S_Allowed) && negb (code =? S_HitQuota) && pspec lims t ws r
       else
         let wl := if align then w else period in
-        let (ws', c) := wtake t (kid lim key) quota wl ws in
+        let (ws', c) := wtake t (kid pfx key) quota wl ws in
         (err =? 0) && (code =? c) && (1 <=? wl) && (wl <=? period) && pspec lims t ws' r
   | XPConc lim key g w counts errs ent :: r =>
-      let '(period, quota, align) := lim_of lims lim in
+      let '(period, quota, align, pfx) := lim_of lims lim in
       if period <? 1 then true
       else
         let wl := if align then w else period in
-        let (ws', cs) := wtakes g t (kid lim key) quota wl ws in
+        let (ws', cs) := wtakes g t (kid pfx key) quota wl ws in
         (errs =? 0) &&
         zlist_eqb counts (map (fun c => countb (Z.eqb c) cs) [0; 1; 2; 3]) &&
         pspec lims t ws' r
@@ -133,66 +142,117 @@ Fixpoint pspec (lims : list (Z * Z * bool)) (t : Z) (ws : windows) (ops : list x
 Definition ctx_of (n : nat) : ctxs :=
   match n with O => CtxOk | S O => CtxCanceled | _ => CtxDeadline end.
 
-(* the driver lets the monitor goroutine finish whenever PING is answered *)
-Definition settle (c : tcfg) (st : tstate) : tstate :=
-  if ping_up (fst st) then fst (trun c st [TPing; TExit]) else st.
+(* two limiter instances over one Redis *)
+Definition xstate : Type := world * limiter * limiter.
+
+(* the driver lets the monitor goroutines finish whenever PING is answered: TPing; TExit for each *)
+Definition settle (st : xstate) : xstate :=
+  let '(w, l0, l1) := st in
+  if ping_up w then (w, monitor_exit (ping w l0), monitor_exit (ping w l1)) else st.
+
+(* a world-only event (TTick / TFault / TReplace) as Model.tstep performs it *)
+Definition wstep (c : tcfg) (st : xstate) (e : tev) : xstate :=
+  let '(w, l0, l1) := st in (fst (fst (tstep c (w, l0) e)), l0, l1).
+
+Definition xreserve (c : tcfg) (st : xstate) (inst : nat) (now n : Z) (cx : ctxs) : xstate * bool :=
+  let '(w, l0, l1) := st in
+  match inst with
+  | O => let '(w', l', ok) := reserve c w l0 now n cx in ((w', l', l1), ok)
+  | _ => let '(w', l', ok) := reserve c w l1 now n cx in ((w', l0, l'), ok)
+  end.
+
+Fixpoint xreserves (g : nat) (c : tcfg) (st : xstate) (inst : nat) (now n : Z) : xstate * Z :=
+  match g with
+  | O => (st, 0)
+  | S g' => let (st1, ok) := xreserve c st inst now n CtxOk in
+            let (st2, k) := xreserves g' c st1 inst now n in (st2, if ok then k + 1 else k)
+  end.
 
 Definition mon_started (l : limiter) : bool := match monitor l with MIdle => false | _ => true end.
 
-Definition snap_ok (c : tcfg) (st : tstate) (sn : snap) : bool :=
-  let (w, l) := st in
-  Bool.eqb (alive l) (s_alive sn) && Bool.eqb (mon_started l) (s_mon sn) &&
+Definition snap_ok (c : tcfg) (st : xstate) (sn : snap) : bool :=
+  let '(w, l0, l1) := st in
+  Bool.eqb (alive l0) (s_alive0 sn) && Bool.eqb (mon_started l0) (s_mon0 sn) &&
+  Bool.eqb (alive l1) (s_alive1 sn) && Bool.eqb (mon_started l1) (s_mon1 sn) &&
   ent_eqb (clock w) (rget (clock w) (c_ktok c) (rstore w)) (s_tok sn) &&
   ent_eqb (clock w) (rget (clock w) (c_kts c) (rstore w)) (s_ts sn).
 
-Fixpoint tmodel (c : tcfg) (st : tstate) (ops : list xtop) : bool :=
+Definition xclock (st : xstate) : Z := clock (fst (fst st)).
+
+Fixpoint tmodel (c : tcfg) (st : xstate) (ops : list xtop) : bool :=
   match ops with
   | [] => true
   | XTTick ms sn :: r =>
-      let st' := settle c (fst (tstep c st (TTick ms))) in
+      let st' := settle (wstep c st (TTick ms)) in
       snap_ok c st' sn && tmodel c st' r
-  | XTAllow n cx skew ok sn :: r =>
-      let (st1, out) := tstep c st (TAllow (clock (fst st) + skew) n (ctx_of cx)) in
-      let st' := settle c st1 in
-      match out with Some b => Bool.eqb b ok | None => false end && snap_ok c st' sn && tmodel c st' r
-  | XTConc g n granted sn :: r =>
-      let (st1, outs) := trun c st (repeat (TAllow (clock (fst st)) n CtxOk) g) in
-      let st' := settle c st1 in
-      (countb (fun b : bool => b) outs =? granted) && snap_ok c st' sn && tmodel c st' r
+  | XTAllow inst n cx skew ok sn :: r =>
+      let (st1, b) := xreserve c st inst (xclock st + skew) n (ctx_of cx) in
+      let st' := settle st1 in
+      Bool.eqb b ok && snap_ok c st' sn && tmodel c st' r
+  | XTConc inst g n granted sn :: r =>
+      let (st1, k) := xreserves g c st inst (xclock st) n in
+      let st' := settle st1 in
+      (k =? granted) && snap_ok c st' sn && tmodel c st' r
   | XTFault eup pup hard sn :: r =>
-      let st' := settle c (fst (tstep c st (TFault eup pup))) in
+      let st' := settle (wstep c st (TFault eup pup)) in
+      snap_ok c st' sn && tmodel c st' r
+  | XTReplace eup pup sn :: r =>
+      let st' := settle (wstep c st (TReplace eup pup)) in
       snap_ok c st' sn && tmodel c st' r
   end.
 
 (* ------------------------------------------------------------------ token: the property on observations *)
+(* Redis bucket (shared), and per limiter instance its mode and in-process bucket *)
 Record sst := mkS {
-  ss_t : Z; ss_mode : fmode; ss_rb : bucket; ss_ib : bucket; ss_eup : bool; ss_pup : bool;
+  ss_t : Z; ss_rb : bucket; ss_eup : bool; ss_pup : bool;
+  ss_m0 : fmode; ss_ib0 : bucket; ss_m1 : fmode; ss_ib1 : bucket;
   ss_log : list (Z * Z * bool)          (* decisions taken by the Redis bucket, newest first: (second, n, granted) *)
 }.
 
-Definition ssettle (s : sst) : sst :=
-  if ss_pup s then mkS (ss_t s) (fpong (ss_mode s)) (ss_rb s) (ss_ib s) (ss_eup s) (ss_pup s) (ss_log s) else s.
+Definition ss_world (s : sst) (t : Z) (rb : bucket) (eup pup : bool) : sst :=
+  mkS t rb eup pup (ss_m0 s) (ss_ib0 s) (ss_m1 s) (ss_ib1 s) (ss_log s).
 
-(* one request: the expected decision and the state afterwards *)
-Definition sallow (rate burst : Z) (s : sst) (n : Z) (ctx_done : bool) : sst * bool :=
-  let (src, m') := fdecide (ss_mode s) ctx_done (ss_eup s) in
+(* an answered ping brings every instance back to Redis *)
+Definition ssettle (s : sst) : sst :=
+  if ss_pup s then mkS (ss_t s) (ss_rb s) (ss_eup s) (ss_pup s) (fpong (ss_m0 s)) (ss_ib0 s) (fpong (ss_m1 s)) (ss_ib1 s) (ss_log s)
+  else s.
+
+Definition ss_mode (s : sst) (inst : nat) : fmode := match inst with O => ss_m0 s | _ => ss_m1 s end.
+Definition ss_ib (s : sst) (inst : nat) : bucket := match inst with O => ss_ib0 s | _ => ss_ib1 s end.
+Definition ss_set (s : sst) (inst : nat) (m : fmode) (ib : bucket) (rb : bucket) (log : list (Z * Z * bool)) : sst :=
+  match inst with
+  | O => mkS (ss_t s) rb (ss_eup s) (ss_pup s) m ib (ss_m1 s) (ss_ib1 s) log
+  | _ => mkS (ss_t s) rb (ss_eup s) (ss_pup s) (ss_m0 s) (ss_ib0 s) m ib log
+  end.
+
+(* one request of instance inst: who decides, the expected decision and the state afterwards *)
+Definition sallow (rate burst : Z) (s : sst) (inst : nat) (n : Z) (ctx_done : bool) : sst * bool * fsource :=
+  let (src, m') := fdecide (ss_mode s inst) ctx_done (ss_eup s) in
   match src with
-  | Refused => (s, false)
+  | Refused => (s, false, src)
   | FromRedis =>
       let sec := ss_t s / 1000 in
       let (b', d) := btake rate burst 1 (ss_rb s) sec n in
-      (mkS (ss_t s) m' b' (ss_ib s) (ss_eup s) (ss_pup s) ((sec, n, d) :: ss_log s), d)
+      (ss_set s inst m' (ss_ib s inst) b' ((sec, n, d) :: ss_log s), d, src)
   | FromRescue =>
-      let (b', d) := btake rate burst 1000 (ss_ib s) (ss_t s) n in
-      (mkS (ss_t s) m' (ss_rb s) b' (ss_eup s) (ss_pup s) (ss_log s), d)
+      let (b', d) := btake rate burst 1000 (ss_ib s inst) (ss_t s) n in
+      (ss_set s inst m' b' (ss_rb s) (ss_log s), d, src)
   end.
 
-Fixpoint sallows (g : nat) (rate burst : Z) (s : sst) (n : Z) : sst * Z :=
+Fixpoint sallows (g : nat) (rate burst : Z) (s : sst) (inst : nat) (n : Z) : sst * Z :=
   match g with
   | O => (s, 0)
-  | S g' => let (s1, d) := sallow rate burst s n false in
-            let (s2, k) := sallows g' rate burst s1 n in (s2, if d then k + 1 else k)
+  | S g' => let '(s1, d, _) := sallow rate burst s inst n false in
+            let (s2, k) := sallows g' rate burst s1 inst n in (s2, if d then k + 1 else k)
   end.
+
+(* a decision of the Redis bucket leaves the level and the second in the two bucket keys of the
+   server that answered (in particular of a server that has just replaced the old one) *)
+Definition keys_ok (s : sst) (sn : snap) : bool :=
+  let '(p1, v1, _) := s_tok sn in
+  let '(p2, v2, _) := s_ts sn in
+  ((p1 =? -1) || ((p1 =? 1) && (v1 =? fst (ss_rb s)))) &&
+  ((p2 =? -1) || ((p2 =? 1) && (v2 =? snd (ss_rb s)))).
 
 (* events let through from second s0 on never exceed burst + rate * elapsed seconds *)
 Fixpoint bound_from (rate burst s0 acc : Z) (evs : list (Z * Z * bool)) : bool :=
@@ -210,25 +270,32 @@ Fixpoint bound_ok (rate burst : Z) (evs : list (Z * Z * bool)) : bool :=
   end.
 
 (* None: a hypothesis of the property does not hold for the rest of the history (skewed caller clock,
-   negative step or request): nothing is claimed *)
+   negative step or request): nothing is claimed. A replaced server starts with a full bucket and its
+   own admission log (the bound is per server: the lost server's grants are not the new one's). *)
 Fixpoint tspec (rate burst : Z) (s : sst) (ops : list xtop) : option (bool * sst) :=
   match ops with
-  | [] => Some (true, s)
+  | [] => Some (bound_ok rate burst (rev (ss_log s)), s)
   | XTTick ms sn :: r =>
       if ms <? 0 then None
-      else tspec rate burst (ssettle (mkS (ss_t s + ms) (ss_mode s) (ss_rb s) (ss_ib s) (ss_eup s) (ss_pup s) (ss_log s))) r
-  | XTAllow n cx skew ok sn :: r =>
+      else tspec rate burst (ssettle (ss_world s (ss_t s + ms) (ss_rb s) (ss_eup s) (ss_pup s))) r
+  | XTAllow inst n cx skew ok sn :: r =>
       if (n <? 0) || negb (skew =? 0) then None
       else
-        let (s1, d) := sallow rate burst s n (negb (Nat.eqb cx 0)) in
-        if Bool.eqb d ok then tspec rate burst (ssettle s1) r else Some (false, s1)
-  | XTConc g n granted sn :: r =>
+        let '(s1, d, src) := sallow rate burst s inst n (negb (Nat.eqb cx 0)) in
+        if Bool.eqb d ok && (match src with FromRedis => keys_ok s1 sn | _ => true end)
+        then tspec rate burst (ssettle s1) r else Some (false, s1)
+  | XTConc inst g n granted sn :: r =>
       if n <? 0 then None
       else
-        let (s1, k) := sallows g rate burst s n in
+        let (s1, k) := sallows g rate burst s inst n in
         if k =? granted then tspec rate burst (ssettle s1) r else Some (false, s1)
   | XTFault eup pup hard sn :: r =>
-      tspec rate burst (ssettle (mkS (ss_t s) (ss_mode s) (ss_rb s) (ss_ib s) eup pup (ss_log s))) r
+      tspec rate burst (ssettle (ss_world s (ss_t s) (ss_rb s) eup pup)) r
+  | XTReplace eup pup sn :: r =>
+      if bound_ok rate burst (rev (ss_log s)) then
+        let s0 := ss_world s (ss_t s) (binit burst 1 (ss_t s / 1000)) eup pup in
+        tspec rate burst (ssettle (mkS (ss_t s0) (ss_rb s0) eup pup (ss_m0 s) (ss_ib0 s) (ss_m1 s) (ss_ib1 s) [])) r
+      else Some (false, s)
   end.
 
 Definition token_hyp (rate burst t0 : Z) : bool :=
@@ -245,7 +312,7 @@ Definition model_ok (c : case) : bool :=
       match new_limiter cf with
       | Panic => panicked
       | Err _ => false
-      | Ok l => negb panicked && tmodel cf (mkW t0 [] true true, l) ops
+      | Ok l => negb panicked && tmodel cf (mkW t0 [] true true, l, l) ops
       end
   end.
 
@@ -255,9 +322,10 @@ Definition spec_ok (c : case) : bool :=
   | CToken rate burst t0 panicked ops =>
       if token_hyp rate burst t0 then
         negb panicked &&
-        match tspec rate burst (mkS t0 FRedis (binit burst 1 (t0 / 1000)) (binit burst 1000 t0) true true []) ops with
+        match tspec rate burst (mkS t0 (binit burst 1 (t0 / 1000)) true true FRedis (binit burst 1000 t0)
+                                    FRedis (binit burst 1000 t0) []) ops with
         | None => true
-        | Some (ok, s) => ok && bound_ok rate burst (rev (ss_log s))
+        | Some (ok, s) => ok
         end
       else true
   end.
@@ -265,6 +333,6 @@ Definition spec_ok (c : case) : bool :=
 (* labels for the input distribution: does the case satisfy the hypotheses of the token theorems *)
 Definition hyp_ok (c : case) : bool :=
   match c with
-  | CPeriod lims t0 ops => forallb (fun l => 1 <=? fst (fst l)) lims
+  | CPeriod lims t0 ops => forallb (fun l => 1 <=? fst (fst (fst l))) lims
   | CToken rate burst t0 _ _ => token_hyp rate burst t0
   end.
